@@ -12,9 +12,11 @@ import (
 	"github.com/kstenerud/go-concise-encoding/cbe"
 	"github.com/kstenerud/go-concise-encoding/configuration"
 	"github.com/kstenerud/go-concise-encoding/cte"
+	"github.com/kstenerud/go-concise-encoding/iterator"
 	"verif/harness/internal/codec"
 	"verif/harness/internal/ev"
 	"verif/harness/internal/fx"
+	"verif/harness/internal/gen"
 )
 
 type c21Witness struct {
@@ -24,6 +26,7 @@ type c21Witness struct {
 	Doc    []ev.E     `json:"document,omitempty"`
 	CaseIn bool       `json:"case_insensitive"`
 	Format string     `json:"format,omitempty"`
+	Seq    bool       `json:"two_values_of_one_type,omitempty"` // Fields = first value's fields followed by the second's
 }
 
 // C21In is the embedded struct type of the embedding cases (must be exported to be embeddable via reflect.StructOf).
@@ -216,6 +219,108 @@ func c21Model(s reflect.Value, fields []c21Field, style configuration.FieldNameS
 	return kept
 }
 
+// c21CompareMap: the emitted map against the model's kept fields (set, order, names, values).
+func c21CompareMap(tree *tnode, want []c21Kept, fields []c21Field, es []ev.E) (kind, msg string) {
+	describe := func() string {
+		var ws []string
+		for _, k := range want {
+			ws = append(ws, k.names[0])
+		}
+		return fmt.Sprintf("model keys %v; events [%s]", ws, clipS(ev.Join(es)))
+	}
+	if len(tree.children) != 2*len(want) {
+		return "wrong-field-set", fmt.Sprintf("struct %v emits %d fields, expected %d: %s", fields, len(tree.children)/2, len(want), describe())
+	}
+	for i, k := range want {
+		key := tree.children[2*i]
+		okName := false
+		for _, n := range k.names {
+			if key.kind == tString && string(key.data) == n {
+				okName = true
+			}
+		}
+		if !okName {
+			// distinguish "right set, wrong order" from "wrong name"
+			kind := "wrong-name"
+			for _, k2 := range want {
+				for _, n := range k2.names {
+					if key.kind == tString && string(key.data) == n {
+						kind = "wrong-order"
+					}
+				}
+			}
+			return kind, fmt.Sprintf("struct %v: field %d is emitted under %s, expected %v: %s", fields, i, key, k.names, describe())
+		}
+		m := &matcher{omitEmpty: true}
+		if msg := m.match(tree.children[2*i+1], k.val, "$."+k.names[0]); msg != "" {
+			return "wrong-value", fmt.Sprintf("struct %v: %s", fields, msg)
+		}
+	}
+	return "", ""
+}
+
+// c21MarshalSeq: two values of ONE struct type (different fields omitted in each), as two elements of a slice and as two
+// documents from one iterator: what the first value omits must not change what the second emits.
+func c21MarshalSeq(c *fx.Ctx, f1, f2 []c21Field, style configuration.FieldNameStyle, defOmit configuration.FieldOmitBehavior) {
+	s1, ok1 := c21Build(f1)
+	s2, ok2 := c21Build(f2)
+	if !ok1 || !ok2 || s1.Type() != s2.Type() {
+		return
+	}
+	cfg := configuration.New()
+	cfg.Iterator.FieldNameStyle = style
+	cfg.Iterator.DefaultFieldOmitBehavior = defOmit
+	w := c21Witness{Fields: append(append([]c21Field{}, f1...), f2...), Style: int(style), Omit: int(defOmit), Seq: true}
+	sig := fmt.Sprintf("marshal:sequence:style%d:omit%d", style, defOmit)
+	c.Add("evaluations", 1)
+	c.Add("marshal_sequence_cases", 1)
+	// (a) two elements of one slice
+	sl := reflect.MakeSlice(reflect.SliceOf(s1.Type()), 0, 2)
+	sl = reflect.Append(reflect.Append(sl, s1), s2)
+	es, err := iterateEvents(sl.Interface(), cfg, false)
+	if err != nil {
+		c.Violation(sig+":iterate-fails:"+errClass(err), fmt.Sprintf("iterating [%v %v] fails: %v", f1, f2, err), w)
+		return
+	}
+	tree, terr := treeOf(es)
+	if terr != nil || tree.kind != tList || len(tree.children) != 2 {
+		c.Violation(sig+":not-a-list-of-two", fmt.Sprintf("events of [%v %v]: [%s] (%v)", f1, f2, clipS(ev.Join(es)), terr), w)
+		return
+	}
+	for i, sv := range []reflect.Value{s1, s2} {
+		fs := [][]c21Field{f1, f2}[i]
+		if tree.children[i].kind != tMap {
+			c.Violation(sig+":not-a-map", fmt.Sprintf("element %d of [%v %v]: [%s]", i, f1, f2, clipS(ev.Join(es))), w)
+			return
+		}
+		if kind, msg := c21CompareMap(tree.children[i], c21Model(sv, fs, style, defOmit), fs, es); kind != "" {
+			c.Violation(fmt.Sprintf("%s:element-%d:%s", sig, i, kind), "slice of two values of one struct type: "+msg, w)
+			return
+		}
+	}
+	// (b) two documents from one root iterator
+	rec := &ev.Recorder{}
+	it := iterator.NewSession(nil, cfg).NewIterator(rec)
+	for i, sv := range []reflect.Value{s1, s2} {
+		fs := [][]c21Field{f1, f2}[i]
+		rec.Reset()
+		if err := safeCall(func() error { it.Iterate(sv.Interface()); return nil }); err != nil {
+			c.Violation(sig+":reused-iterator-fails:"+errClass(err), fmt.Sprintf("document %d on one iterator (%v): %v", i, fs, err), w)
+			return
+		}
+		t, terr := treeOf(rec.Events)
+		if terr != nil || t.kind != tMap {
+			c.Violation(sig+":reused-iterator-not-a-map", fmt.Sprintf("document %d on one iterator (%v): [%s] (%v)", i, fs, clipS(ev.Join(rec.Events)), terr), w)
+			return
+		}
+		if kind, msg := c21CompareMap(t, c21Model(sv, fs, style, defOmit), fs, rec.Events); kind != "" {
+			c.Violation(fmt.Sprintf("%s:document-%d-on-one-iterator:%s", sig, i, kind), msg, w)
+			return
+		}
+	}
+	c.Distinct("nontrivial", fmt.Sprintf("seq|%v|%v|%d|%d", f1, f2, style, defOmit))
+}
+
 func c21Marshal(c *fx.Ctx, fields []c21Field, style configuration.FieldNameStyle, defOmit configuration.FieldOmitBehavior, family string) {
 	s, ok := c21Build(fields)
 	if !ok {
@@ -238,44 +343,9 @@ func c21Marshal(c *fx.Ctx, fields []c21Field, style configuration.FieldNameStyle
 		c.Violation(sig+":not-a-map", fmt.Sprintf("events of %v: [%s] (%v)", fields, clipS(ev.Join(es)), terr), w)
 		return
 	}
-	want := c21Model(s, fields, style, defOmit)
-	describe := func() string {
-		var ws []string
-		for _, k := range want {
-			ws = append(ws, k.names[0])
-		}
-		return fmt.Sprintf("model keys %v; events [%s]", ws, clipS(ev.Join(es)))
-	}
-	if len(tree.children) != 2*len(want) {
-		c.Violation(sig+":wrong-field-set", fmt.Sprintf("struct %v emits %d fields, expected %d: %s", fields, len(tree.children)/2, len(want), describe()), w)
+	if kind, msg := c21CompareMap(tree, c21Model(s, fields, style, defOmit), fields, es); kind != "" {
+		c.Violation(sig+":"+kind, msg, w)
 		return
-	}
-	for i, k := range want {
-		key := tree.children[2*i]
-		okName := false
-		for _, n := range k.names {
-			if key.kind == tString && string(key.data) == n {
-				okName = true
-			}
-		}
-		if !okName {
-			// distinguish "right set, wrong order" from "wrong name"
-			kind := "wrong-name"
-			for _, k2 := range want {
-				for _, n := range k2.names {
-					if key.kind == tString && string(key.data) == n {
-						kind = "wrong-order"
-					}
-				}
-			}
-			c.Violation(sig+":"+kind, fmt.Sprintf("struct %v: field %d is emitted under %s, expected %v: %s", fields, i, key, k.names, describe()), w)
-			return
-		}
-		m := &matcher{omitEmpty: true}
-		if msg := m.match(tree.children[2*i+1], k.val, "$."+k.names[0]); msg != "" {
-			c.Violation(sig+":wrong-value", fmt.Sprintf("struct %v: %s", fields, msg), w)
-			return
-		}
 	}
 	c.Distinct("nontrivial", fmt.Sprintf("%v|%d|%d", fields, style, defOmit))
 	if c.Index()%53 == 0 {
@@ -484,6 +554,31 @@ func c21Run(c *fx.Ctx) {
 			}
 		}
 	}
+	// 3b. sequences of two values of one struct type: every pair of value assignments over three fields × omit tags
+	seqVals := [][3]string{{"int0", "str0", "sliceNil"}, {"int5", "strS", "slice1"}, {"int0", "strS", "sliceNil"}, {"int5", "str0", "slice1"}, {"int0", "str0", "slice1"}}
+	for _, tg := range [][3]string{{"", "", ""}, {"omit_empty", "", "omit_zero"}, {"", "omit_never", ""}, {"order=2", "", "order=1"}, {"omit", "", ""}} {
+		if !c.Take() {
+			continue
+		}
+		for _, va := range seqVals {
+			for _, vb := range seqVals {
+				mk := func(v [3]string) []c21Field {
+					return []c21Field{{Name: "Alpha", Tag: tg[0], Val: v[0]}, {Name: "Beta", Tag: tg[1], Val: v[1]}, {Name: "Gamma", Tag: tg[2], Val: v[2]}}
+				}
+				for _, st := range styles {
+					for _, om := range omits {
+						c21MarshalSeq(c, mk(va), mk(vb), st, om)
+					}
+				}
+			}
+		}
+	}
+	// 3c. promoted fields of embedded structs at every depth
+	for _, g := range gen.ExtraValues() {
+		if g.Class == "embedded" && reflect.TypeOf(g.V).Kind() == reflect.Struct && c.Take() {
+			c21Embedded(c, g)
+		}
+	}
 	// 4. unmarshal: key spellings × unknown keys × case sensitivity
 	ufs := [][]c21UField{
 		{{"AbCd", ""}, {"URLValue", ""}},
@@ -497,7 +592,7 @@ func c21Run(c *fx.Ctx) {
 		var spell [][]string
 		for _, x := range fs {
 			e := c21ParseTag(x.tag, x.goName).name
-			spell = append(spell, []string{e, refSnake(e), strings.ToLower(e), strings.ToUpper(e), "_" + e + "_", strings.ToUpper(e[:1]) + "_" + e[1:], e + "x"})
+			spell = append(spell, []string{e, refSnake(e), strings.ToLower(e), strings.ToUpper(e), "_" + e + "_", strings.ToUpper(e[:1]) + "_" + e[1:], e + "x", e[:1] + "__" + e[1:], "__" + strings.ToLower(e), e + "___"})
 		}
 		for _, k0 := range spell[0] {
 			for _, k1 := range spell[1] {
@@ -520,12 +615,86 @@ func c21Run(c *fx.Ctx) {
 	}
 }
 
+// c21Embedded: keys of promoted fields at every embedding depth (gen.EmbL1: four levels) must reach their fields:
+// the value's own events, with the top-level entries in document order, reversed and rotated, spelled exactly and
+// in upper case, are unmarshaled into the zero value of the type and compared with the original.
+func c21Embedded(c *fx.Ctx, g gen.GV) {
+	cfg := configuration.New()
+	es, err := iterateEvents(g.V, cfg, false)
+	if err != nil || len(es) < 4 || es[2].K != ev.Map {
+		return
+	}
+	// split the top-level map into entries
+	var entries [][]ev.E
+	i := 3
+	for i < len(es) && es[i].K != ev.End {
+		ke := valueEnd(es, i)
+		ve := valueEnd(es, ke)
+		entries = append(entries, es[i:ve])
+		i = ve
+	}
+	n := len(entries)
+	orders := [][]int{}
+	for rot := 0; rot < n; rot++ {
+		var fwd, rev []int
+		for k := 0; k < n; k++ {
+			fwd = append(fwd, (k+rot)%n)
+			rev = append(rev, (n-1-k+rot)%n)
+		}
+		orders = append(orders, fwd, rev)
+	}
+	for _, ord := range orders {
+		for _, upper := range []bool{false, true} {
+			doc := []ev.E{ev.EBD(), ev.EV(0), ev.EMap()}
+			for _, k := range ord {
+				ent := append([]ev.E{}, entries[k]...)
+				if upper && (ent[0].K == ev.StrArray || ent[0].K == ev.Array) {
+					ent[0] = ev.EStr(strings.ToUpper(string(ent[0].Data)))
+				}
+				doc = append(doc, ent...)
+			}
+			doc = append(doc, ev.EEnd(), ev.EED())
+			for _, f := range []codec.Format{codec.CBE, codec.CTE} {
+				enc, _, eerr := codec.Encode(f, doc, nil, true)
+				if eerr != nil {
+					continue
+				}
+				template := reflect.Zero(reflect.TypeOf(g.V)).Interface()
+				var got interface{}
+				uerr := safeCall(func() error {
+					var e error
+					if f == codec.CBE {
+						got, e = cbe.NewUnmarshaler(cfg).UnmarshalFromDocument(enc, template)
+					} else {
+						got, e = cte.NewUnmarshaler(cfg).UnmarshalFromDocument(enc, template)
+					}
+					return e
+				})
+				c.Add("evaluations", 1)
+				c.Add("unmarshal_cases", 1)
+				c.Add("embedded_unmarshal_cases", 1)
+				w := c21Witness{Doc: doc, Format: f.String(), CaseIn: true}
+				sig := fmt.Sprintf("unmarshal:embedded:%s:upper=%v", f, upper)
+				if uerr != nil {
+					c.Violation(sig+":fails:"+errClass(uerr), fmt.Sprintf("unmarshal of %s into %T fails: %v", showDoc(f, enc), template, uerr), w)
+					return
+				}
+				if msg := goEqual(reflect.ValueOf(g.V), reflect.ValueOf(got), "$"); msg != "" {
+					c.Violation(sig+":field-not-set", fmt.Sprintf("unmarshal of %s into %T (value %s): %s", showDoc(f, enc), template, g.Name, msg), w)
+					return
+				}
+				c.Distinct("nontrivial", sig+string(enc))
+			}
+		}
+	}
+}
+
 func init() {
 	register(&fx.Check{
 		ID:    "C21",
 		Level: "exploration",
-		Rule: "marshal: every single field over 8 field names × 12 tag spellings × 12 values; every pair of tags on two fields × 3 value pairs; an embedded struct (plain / ce:omit / omit_never, zero and non-zero) between two tagged fields; every assignment of 5 order tags to 4 fields — each under both field-name styles and all four default omit behaviours; oracle: a reference model written from the property (kept fields once each, stable order by order tag then declaration, tagged or styled name) compared with the recorded events. " +
-			"unmarshal: 5 two-field structs (incl. two fields whose names differ only by case, one via a name tag) × 7 spellings of each key × both key orders × an unknown key (scalar, long string, nested list, nested map) at each position × case-insensitive on/off × CBE/CTE; oracle: a key that names exactly one field sets it, unknown keys are skipped, other fields keep their zero value; distinct_nontrivial = distinct cases that agreed with the model",
+		Rule: "marshal: every single field over 8 field names × 12 tag spellings × 12 values; every pair of tags on two fields × 3 value pairs; an embedded struct (plain / ce:omit / omit_never, zero and non-zero) between two tagged fields; every assignment of 5 order tags to 4 fields — each under both field-name styles and all four default omit behaviours; oracle: a reference model written from the property (kept fields once each, stable order by order tag then declaration, tagged or styled name) compared with the recorded events; two values of one struct type with different omitted fields (5×5 value assignments × 5 tag sets) as elements of one slice and as two documents from one iterator. " +
+			"unmarshal: 5 two-field structs (incl. two fields whose names differ only by case, one via a name tag) × 10 spellings of each key (incl. runs of underscores) × both key orders × an unknown key (scalar, long string, nested list, nested map) at each position × case-insensitive on/off × CBE/CTE; oracle: a key that names exactly one field sets it, unknown keys are skipped, other fields keep their zero value; distinct_nontrivial = distinct cases that agreed with the model",
 		Assumptions: []string{"whether a name= tag is additionally snake-cased is a don't-care (both accepted)", "in case-sensitive mode keys that differ from a field name only in case/underscores are not judged", "keys that match two fields after normalisation are not judged"},
 		TrustedBase: []string{"reference naming/omission/order model in c21.go", "harness value tree"},
 		Guards:      map[string]int64{"marshal_cases": 12000, "unmarshal_cases": 5000},
@@ -536,6 +705,11 @@ func init() {
 				return err.Error()
 			}
 			c := fx.NewScratchCtx()
+			if w.Seq {
+				h := len(w.Fields) / 2
+				c21MarshalSeq(c, w.Fields[:h], w.Fields[h:], configuration.FieldNameStyle(w.Style), configuration.FieldOmitBehavior(w.Omit))
+				return c.FirstViolation()
+			}
 			if w.Doc == nil {
 				c21Marshal(c, w.Fields, configuration.FieldNameStyle(w.Style), configuration.FieldOmitBehavior(w.Omit), "replay")
 				return c.FirstViolation()
